@@ -16,7 +16,7 @@ EXPLANATION = (
     "anything is built or queued and send() delegates to send_with_header; R4 expired entries are never written (C02.R2 re-used); R5 close() marks the socket not open before its first await, so a send racing with close() is refused and holds nothing (C15.R1/R2 re-used)."
 )
 ASSUMPTIONS = ["deque deletion by index shifts later elements down (why ascending-index deletion is refuted)"]
-FLOORS = {"C16.R1": 4, "C16.R2": 1, "C16.R3": 3, "C16.R4": 1, "C16.R5": 1}
+FLOORS = {"C16.R1": 4, "C16.R2": 1, "C16.R3": 3, "C16.R4": 1, "C16.R5": 1, "C16.R6": 1}
 
 
 def run(ctx):
@@ -27,6 +27,15 @@ def run(ctx):
     r3(ctx)
     r4(ctx)
     r5(ctx)
+    r6(ctx)
+
+
+def r6(ctx):
+    from . import c02
+    from .common import reuse
+
+    reuse(ctx, "C16.R6", [c02.r1_r3], "a message whose write failed is back in the queue before anything else can be accepted, so the ten-message bound counts it (C02.R3)",
+          keep=lambda o: "requeue-before-the-handler-suspends" in o.construct or "re-queue-at-head" in o.construct or o.verdict != "HOLDS")
 
 
 def r5(ctx):
